@@ -60,7 +60,10 @@ def chooser_runs(ctx, f: FunctionInfo):
     ps = [p_ for p_ in f.params if p_ != "self"]
     alts_p = "alternatives" if "alternatives" in ps else (ps[-2] if len(ps) >= 2 else ps[0])
     ctx_p = "ctx" if "ctx" in ps else ps[-1]
-    keeps_flag = any(isinstance(x, ast.Attribute) and x.attr == "expanding" for x in ast.walk(f.node))
+    bodies = [f.node] + [g.node for g in (prog.lookup_method(cls, x.func.attr) for x in ast.walk(f.node)
+                                           if isinstance(x, ast.Call) and isinstance(x.func, ast.Attribute)
+                                           and isinstance(x.func.value, ast.Name) and x.func.value.id == "self") if g is not None]
+    keeps_flag = any(isinstance(x, ast.Attribute) and x.attr == "expanding" for b in bodies for x in ast.walk(b))
     for dists in DIST_TABLES:
         dist = {a.tag: d_ for a, d_ in zip(alts, dists)}
         for rec in REC_TABLES:
